@@ -1,6 +1,8 @@
 mod chain;
 mod classify;
 mod conc;
+mod drive;
+#[cfg(feature = "std")]
 mod life;
 mod replay;
 mod universe;
@@ -27,6 +29,16 @@ fn main() {
             replay::run_replay(&mut lock, out, &opts)
         }
         Some("conc") => conc::run_conc(args.get(2).expect("spec"), args.get(3).expect("trace"), args.get(4).expect("summary")),
+        Some("drive-mock") => {
+            let flag = |name: &str| args.iter().position(|a| a == name).and_then(|i| args.get(i + 1)).cloned();
+            drive::run_drive(
+                args.get(2).expect("trace path"),
+                flag("--seed").map(|v| v.parse().unwrap()).unwrap_or(1),
+                flag("--mocks").map(|v| v.parse().unwrap()).unwrap_or(100),
+                flag("--calls").map(|v| v.parse().unwrap()).unwrap_or(20),
+            )
+        }
+        #[cfg(feature = "std")]
         Some("life") => {
             let flag = |name: &str| args.iter().position(|a| a == name).and_then(|i| args.get(i + 1)).cloned();
             life::run_life(
